@@ -248,20 +248,19 @@ Lemma random_unit u1 u2 u3 : 0 <= u1 <= 1 ->
 Proof.
   intros [H0 H1]. unfold C11_random_R. cbv zeta. eexists. split; [reflexivity|].
   cbv [unit4l qnorm2 e nth length]. split; [reflexivity|].
-  assert (Hn : sqrt u1 * cos (2 * PI * u3) * (sqrt u1 * cos (2 * PI * u3)) +
-               sqrt (1 - u1) * sin (2 * PI * u2) * (sqrt (1 - u1) * sin (2 * PI * u2)) +
-               sqrt (1 - u1) * cos (2 * PI * u2) * (sqrt (1 - u1) * cos (2 * PI * u2)) +
-               sqrt u1 * sin (2 * PI * u3) * (sqrt u1 * sin (2 * PI * u3)) = 1).
-  { pose proof (sqrt_sqrt u1 H0) as A. pose proof (sqrt_sqrt (1 - u1) ltac:(lra)) as B.
-    pose proof (sin2_cos2 (2 * PI * u2)) as C2. pose proof (sin2_cos2 (2 * PI * u3)) as C3.
-    unfold Rsqr in C2, C3.
-    set (s2 := sqrt u1) in *. set (s1 := sqrt (1 - u1)) in *.
-    set (c2 := cos (2 * PI * u2)) in *. set (sn2 := sin (2 * PI * u2)) in *.
-    set (c3 := cos (2 * PI * u3)) in *. set (sn3 := sin (2 * PI * u3)) in *.
-    replace (s2 * c3 * (s2 * c3) + s1 * sn2 * (s1 * sn2) + s1 * c2 * (s1 * c2) + s2 * sn3 * (s2 * sn3))
-      with ((s2 * s2) * (sn3 * sn3 + c3 * c3) + (s1 * s1) * (sn2 * sn2 + c2 * c2)) by ring.
-    rewrite A, B, C2, C3. ring. }
-  rewrite Hn, sqrt_1. unfold Rdiv. rewrite Rinv_1, !Rmult_1_r. exact Hn.
+  (* the vector before the final normalisation has a positive squared norm (in fact 1: s1^2 + s2^2 = 1 and
+     sin^2 + cos^2 = 1); dividing by its norm then gives a unit vector *)
+  pose proof (sqrt_sqrt u1 H0) as A. pose proof (sqrt_sqrt (1 - u1) ltac:(lra)) as B.
+  pose proof (sin2_cos2 (2 * PI * u2)) as C2. pose proof (sin2_cos2 (2 * PI * u3)) as C3.
+  unfold Rsqr in C2, C3.
+  apply div4_unit.
+  match goal with |- sqrt ?e <> 0 => assert (Hpos : 0 < e); [|pose proof (sqrt_lt_R0 _ Hpos); lra] end.
+  set (s2 := sqrt u1) in *. set (s1 := sqrt (1 - u1)) in *.
+  set (c2 := cos (2 * PI * u2)) in *. set (sn2 := sin (2 * PI * u2)) in *.
+  set (c3 := cos (2 * PI * u3)) in *. set (sn3 := sin (2 * PI * u3)) in *.
+  match goal with |- 0 < ?e =>
+    replace e with ((s2 * s2) * (sn3 * sn3 + c3 * c3) + (s1 * s1) * (sn2 * sn2 + c2 * c2)) by ring end.
+  rewrite A, B, C2, C3. lra.
 Qed.
 
 (* ========================================================================================= *)
